@@ -271,6 +271,16 @@ A(M("c07v-r6-walk-returns-start", "C07", C, "            else:\n                
 A(M("c07v-r6-leftover-dropped", "C07", C, "            if loop_candidate not in used\n        )\n\n        return stems, single_strands, hairpins, loops", "            if loop_candidate not in used and loop_candidate.last - loop_candidate.first > 1\n        )\n\n        return stems, single_strands, hairpins, loops", ["elements-eval-coverage", "elements-tails-fact"], **B76))
 A(M("c07v-r6-size-cap", "C07", C, "if len(loop_candidates) < 2:", "if len(loop_candidates) < 2 or len(self.entries) > 400:", ["elements-links-fact", "elements-eval-coverage"], kind="fire", **B76))
 A(M("c07v-single-linker", "C07", C, "            if loop_candidate not in used:\n                single_strands.append(SingleStrand(loop_candidate, False, False))", "            if loop_candidate not in used and loop_candidate.last - loop_candidate.first >= 3:\n                single_strands.append(SingleStrand(loop_candidate, False, False))", ["elements-eval-coverage", "elements-tails-fact"]))
+# round 6: the walk kept as candidate numbers (C07-r8): marks and leftover test must agree on numbers/values; one-way equality tolerated
+B78 = dict(base="C07-r8")
+A(M("c07e-r8-marks-strands", "C07", C, "                used.update(chain)\n", "                used.update(loop)\n", ["elements-closure-fact", "elements-eval-coverage"], **B78))
+A(M("c07e-r8-leftover-strands", "C07", C, "            if i not in used:\n                single_strands.append(SingleStrand(loop_candidate, False, False))", "            if loop_candidate not in used:\n                single_strands.append(SingleStrand(loop_candidate, False, False))", ["elements-closure-fact", "elements-eval-coverage"], **B78))
+A(M("c07e-r8-marks-other-set", "C07", C, "                used.update(chain)\n", "                visited.update(chain)\n", ["elements-closure-fact", "elements-eval-coverage", "elements-eval-loops"], **B78))
+A(M("c07e-r8-successor-self", "C07", C, "                if j is not None and j != i:\n", "                if j is not None and j != i and strand.last - strand.first < 40:\n", None, kind="unrecognised", **B78))  # a threshold: the evaluation abstains (one-way condition with a constant), the successor-dict idiom is not read by the links rule: exit 2
+A(M("c07e-r8-union-silent", "C07", C, "                used.update(chain)\n", "                used |= set(chain)\n", kind="silent", **B78))
+A(M("c07e-r8-add-loop-silent", "C07", C, "                used.update(chain)\n", "                for number in chain:\n                    used.add(number)\n", kind="silent", **B78))
+A(M("c07e-r8-no-self-test-silent", "C07", C, "                if j is not None and j != i:\n", "                if j is not None:\n", kind="silent", **B78))
+A(M("c07e-union-silent", "C07", C, "                    used.update(loop)\n", "                    used |= set(loop)\n", kind="silent"))
 # C05 contact-visit-order (F23)
 A(M("c05-visit-order-unsorted", "C05", "annotator.py", "for i, j in sorted(kdtree.query_pairs(HYDROGEN_BOND_MAX_DISTANCE)):", "for i, j in kdtree.query_pairs(HYDROGEN_BOND_MAX_DISTANCE):", "contact-visit-order"))
 A(M("c05-visit-order-list", "C05", "annotator.py", "for i, j in sorted(kdtree.query_pairs(HYDROGEN_BOND_MAX_DISTANCE)):", "for i, j in list(kdtree.query_pairs(HYDROGEN_BOND_MAX_DISTANCE)):", "contact-visit-order"))
